@@ -492,9 +492,16 @@ class FlushContract(Contract):
             bp, bq = bufs(c)
             pre, post = c.pre, c.post
             f = R(c)["f"]
-            return [("C17:unchanged-copy-not-written", z3.And(post.g["FS"] == pre.g["FS"], post.g["Res"] == pre.g["Res"],
-                                                              post.g["Wr"] == pre.g["Wr"], post.g["Meta"] == pre.g["Meta"])),
-                    ("C07:entry-settled", settled(bp, bq, f, forced(c)))] + nofault(c) + common(c)
+            out = [("C17:unchanged-copy-not-written", z3.And(post.g["FS"] == pre.g["FS"], post.g["Res"] == pre.g["Res"],
+                                                             post.g["Wr"] == pre.g["Wr"], post.g["Meta"] == pre.g["Meta"])),
+                   ("C07:entry-settled", settled(bp, bq, f, forced(c)))]
+            if bp.strategy == "shared":
+                # an entry that stays in the buffer without having been written keeps the metadata of the disk version
+                # its content was read from: otherwise an outside change made meanwhile is forgotten, and a later
+                # modification of the copy overwrites it silently
+                out.append(("C07:read-only-entry-keeps-its-metadata",
+                            z3.Implies(forced(c), pyeq(bq.field(f, K_METADATA), bp.field(f, K_METADATA)))))
+            return out + nofault(c) + common(c)
 
         def post_written(c):
             bp, bq = bufs(c)
